@@ -168,8 +168,25 @@ def implies(l1, l2):
     return False
 
 
+def _presupposed(l):
+    """{(E, variant)}: a literal that reads the payload `(E as V).i` is only meaningful where E is a V"""
+    out = set()
+    if l[0] in ("is", "in", "notin"):
+        for x in walk(l[1]):
+            if x[0] == "vfield" and isinstance(x[2], str):
+                out.add((x[1], x[2].rsplit("::", 1)[-1]))
+    return out
+
+
 def contradicts(facts, l1, l2):
-    return implies(l1, negate(facts, l2))
+    if implies(l1, negate(facts, l2)):
+        return True
+    for a, b in ((l1, l2), (l2, l1)):
+        if a[0] == "in":
+            for e, v in _presupposed(b):
+                if e == a[1] and v not in a[2]:
+                    return True
+    return False
 
 
 def show_lit(l):
@@ -196,6 +213,19 @@ def _range_conj(facts, lit):
             if "start" in d and "end" in d:
                 return (lit, norm_lit(facts, mk_bin("Lt", x, d["start"]), False), norm_lit(facts, mk_bin("Lt", x, d["end"]), True))
     return (lit,)
+
+
+def _too_big(e, limit=300):
+    n = 0
+    st = [e]
+    while st:
+        x = st.pop()
+        if isinstance(x, tuple):
+            n += 1
+            if n > limit:
+                return True
+            st.extend(x)
+    return False
 
 
 # ------------------------------------------------------------------------------ graph
@@ -295,7 +325,11 @@ class PG:
             b = body.blocks[bi]
             for si, st in enumerate(b["stmts"]):
                 if st["k"] == "assign" and not st["place"]["p"] and st["place"]["l"] in self.tracked:
-                    env[st["place"]["l"]] = self._val(st["rv"], (bi, si), env, False)
+                    v_ = self._val(st["rv"], (bi, si), env, False)
+                    if _too_big(v_):
+                        # widening: a loop-carried value that keeps growing falls back to its path-insensitive form
+                        v_ = a.expr_rvalue(st["rv"], (bi, si))
+                    env[st["place"]["l"]] = v_
             t = b["term"]
             k = t["k"]
             out = []
@@ -306,7 +340,10 @@ class PG:
                     d = t["dest"]
                     if not d["p"] and d["l"] in self.tracked:
                         env = dict(env)
-                        env[d["l"]] = a.expr_call(t, (bi, "term"), 0, self._env_for_expr(env, bi))
+                        v_ = a.expr_call(t, (bi, "term"), 0, self._env_for_expr(env, bi))
+                        if _too_big(v_):
+                            v_ = a.expr_call(t, (bi, "term"))
+                        env[d["l"]] = v_
                     out.append((t["target"], ()))
             elif k == "drop":
                 out.append((t["target"], ()))
@@ -415,19 +452,32 @@ class PG:
     def site_nodes(self, block):
         return self.by_block.get(block, [])
 
-    def guarded(self, site_at, ok_edge, kill_block=None, start_held=False, assume=None):
+    def guarded(self, site_at, ok_edge, kill_block=None, start_held=False, assume=None, subjects=None):
         """True iff on every path from entry to the site an edge accepted by ok_edge(lits) has been
         passed and no later block (or earlier statement of the site's block) is a kill.
-        Returns (ok, witness) where witness is a list of blocks of an unguarded path."""
+        Returns (ok, witness) where witness is a list of blocks of an unguarded path.
+        subjects: enum-valued expressions whose successive tests narrow (`x != A` then `x != B` leaves C): along a
+        path the `in` sets on such an expression are intersected and the narrowed literal is offered to ok_edge too;
+        a kill block forgets the narrowing."""
+        if subjects is None:
+            r = self.guarded(site_at, ok_edge, kill_block, start_held, assume, False)
+            if r[0]:
+                return r
+            wb_ = getattr(ok_edge, "with_block", False)
+            sub = self.narrowing_subjects((lambda l: ok_edge([l], None)) if wb_ else (lambda l: ok_edge([l])))
+            if not sub:
+                return r
+            return self.guarded(site_at, ok_edge, kill_block, start_held, assume, sub)
         sb, sidx = site_at
         kb = kill_block or (lambda b, upto: False)
-        start = (0, start_held)
+        start = (0, start_held, ())
         seen = {start: None}
         work = [start]
         kill_cache = {}
+        wb = getattr(ok_edge, "with_block", False)
         while work:
             st = work.pop()
-            n, held = st
+            n, held, nar = st
             bi = self.nodes[n][0]
             if bi == sb:
                 h = held and not kb(bi, sidx)
@@ -436,15 +486,57 @@ class PG:
             if bi not in kill_cache:
                 kill_cache[bi] = kb(bi, None)
             hout = held and not kill_cache[bi]
+            if kill_cache[bi]:
+                nar = ()
             for m, lits in self.edges[n] or []:
                 if assume and any(contradicts(self.facts, a, l) for a in assume for l in lits):
                     continue
-                h2 = True if (lits and (ok_edge(lits, bi) if getattr(ok_edge, "with_block", False) else ok_edge(lits))) else hout
-                s2 = (m, h2)
+                nar2 = nar
+                if subjects and lits:
+                    d = None
+                    extra = []
+                    for l in lits:
+                        if l[0] == "in" and l[1] in subjects:
+                            if d is None:
+                                d = dict(nar)
+                            cur = d.get(l[1])
+                            new = l[2] if cur is None else (cur & l[2])
+                            d[l[1]] = new
+                            if new and new != l[2]:
+                                extra.append(("in", l[1], new, l[3]))
+                    if d is not None:
+                        nar2 = tuple(sorted(d.items(), key=lambda kv: repr(kv[0])))
+                        if extra:
+                            lits = list(lits) + extra
+                h2 = True if (lits and (ok_edge(lits, bi) if wb else ok_edge(lits))) else hout
+                s2 = (m, h2, nar2)
                 if s2 not in seen:
                     seen[s2] = st
                     work.append(s2)
         return True, None
+
+    def narrowing_subjects(self, acc):
+        """enum-valued expressions tested more than once in this function such that the intersection of two of the
+        tested sets is accepted by acc while it differs from both"""
+        groups = getattr(self, "_in_groups", None)
+        if groups is None:
+            groups = {}
+            for n in range(len(self.nodes)):
+                for m, lits in self.edges[n] or []:
+                    for l in lits:
+                        if l[0] == "in" and l[3] is not None:
+                            groups.setdefault((l[1], l[3]), set()).add(l[2])
+            groups = {k: v for k, v in groups.items() if len(v) > 1}
+            self._in_groups = groups
+        out = set()
+        for (e, adt), sets in groups.items():
+            sets = list(sets)
+            for i in range(len(sets)):
+                for j in range(i + 1, len(sets)):
+                    x = sets[i] & sets[j]
+                    if x and x != sets[i] and x != sets[j] and acc(("in", e, x, adt)):
+                        out.add(e)
+        return out
 
     def _witness(self, seen, st):
         path = []
